@@ -88,6 +88,9 @@ pub enum QlogMode {
     Filtered,
     DiscardAll,
     Legacy,
+    /// the shipped LegacySeqLogger writing to a sink that fails (short write, then errors) after a seed-drawn number
+    /// of bytes: the logger's writer task ends mid-connection, events keep being emitted
+    LegacyFailing,
 }
 
 #[derive(Clone, Debug, Serialize, Deserialize)]
@@ -733,7 +736,7 @@ pub fn run_case(case: &Case, _mode: Mode) -> Outcome {
 
 /// C20 oracle A: the same seeded case under every exporter configuration must behave identically.
 pub fn run_differential(case: &Case) -> Outcome {
-    let modes = [QlogMode::Noop, QlogMode::DiscardAll, QlogMode::Capture, QlogMode::CaptureRaw, QlogMode::Filtered, QlogMode::Legacy];
+    let modes = [QlogMode::Noop, QlogMode::DiscardAll, QlogMode::Capture, QlogMode::CaptureRaw, QlogMode::Filtered, QlogMode::Legacy, QlogMode::LegacyFailing];
     let mut base: Option<(u64, u64)> = None;
     let mut merged = Outcome::default();
     for m in modes {
@@ -760,7 +763,7 @@ pub fn run_differential(case: &Case) -> Outcome {
             Some((w0, a0)) => {
                 // the legacy logger spawns its own writer task per connection: only the application trace
                 // is compared for it (DESIGN C20)
-                let same = if m == QlogMode::Legacy { a0 == app } else { w0 == wire && a0 == app };
+                let same = if matches!(m, QlogMode::Legacy | QlogMode::LegacyFailing) { a0 == app } else { w0 == wire && a0 == app };
                 if !same {
                     merged.violate("observational", format!("{m:?}"), format!("exporter configuration {m:?} changed the behaviour of the run: wire {w0:016x}->{wire:016x}, application {a0:016x}->{app:016x}"), 0);
                 }
